@@ -103,6 +103,11 @@ def check(run, project):
     from ..report import RuleView
     from . import c05
     c05.check(RuleView(run, "E3", "S6"), project)
+    # S7 (= C07-NI-2): a stream decodes like its messages one by one IN THE SAME MODE: the mode flag is handed down on every
+    # call from the pump through the dispatcher and the stream walker to the message walkers (a call that omits it falls back
+    # to strict: in warn mode the stream aborts where the single message would have warned and gone on)
+    from . import c07
+    c07.check(RuleView(run, "NI-2", "S7"), project)
     # ... and there is such an end: when the input ends after a complete message the stream walker has already announced the
     # next message's root; without the pump's silent return at that point every stream would end in a depleted error
     from .. import pump as _pump
